@@ -741,6 +741,15 @@ class Engine:
         if kind == "clock":
             SEAMS["clock"].mode = op["mode"]
             return "ok"
+        if kind == "setglobal":
+            # define / delete a module global of the actor module between calls, in every twin
+            for v in self.sim.v.values():
+                if op.get("delete"):
+                    v.mod.__dict__.pop(op["name"], None)
+                else:
+                    v.mod.__dict__[op["name"]] = op.get("value", 7)
+            self.sim.reach("global_deleted" if op.get("delete") else "global_defined")
+            return "ok"
         if kind == "stage":
             return self.op_stage(op)
         if kind == "reenter":
